@@ -56,7 +56,9 @@ class StmtMixin:
         prior = []
         so = self.ordinal(node)
         for i, h in enumerate(self.hz):
-            rs = st.fork()
+            rs = (h.state if h.state is not None else st).fork()
+            if h.state is not None:
+                rs.pc.extend(x for x in st.pc[len(h.state.pc):] if False)  # facts after the fault do not belong to it
             for p in prior:
                 rs.assume(p)
             rs.assume(z3.Not(h.safe))
